@@ -226,7 +226,7 @@ Proof.
          unfold emit_field, emit_with in He; cbn in He;
          match type of He with context[calcsize ?a ?b] => destruct (calcsize a b) end; [|discriminate];
          inversion He; subst f; reflexivity).
-  - cbn [valid_record] in Hv. destruct Hv as [Hu Hl]. subst u.
+  - cbn [valid_record] in Hv. destruct Hv as [Hu [Hl _]]. subst u.
     cbn [wf_pic] in Hwf. apply Nat.leb_le in Hwf.
     unfold delivered_type. cbn [decode]. rewrite (C02_text k buffer Hl). cbn [pytype_of].
     destruct (text_facts display_spelling alpha k rep t e c sz py) as [A _].
